@@ -209,7 +209,7 @@ class IteratorIter(Contract):
 
 class FindJobs(Contract):
     target = f"{PRJ}.Project.find_jobs"
-    properties = ("C06", "C07")
+    properties = ("C06", "C07", "C08")
     ctx_class = SmallCtx
 
     def cases(self):
@@ -241,7 +241,7 @@ class FindJobs(Contract):
 
 class ProjectIter(Contract):
     target = f"{PRJ}.Project.__iter__"
-    properties = ("C02", "C03", "C07")
+    properties = ("C02", "C03", "C07", "C08")
     ctx_class = SmallCtx
 
     def make_ctx(self, case):
